@@ -136,4 +136,13 @@ theorem storedJointWith_sound {f : MeshFields} {P' : List (List Int)} {p : Noisy
   · exact ⟨hAB, fun j hj => sepCol_subset (hcols j hj).1 (hsub2 j),
       fun j hj v hv => hmag j hj v (hsub2 j v hv), hmin, h0, nearPts_self _ _ _, np⟩
 
+/-- under the parameterised point hypothesis every `argsort` returns the index map of the stable one (lets the
+    witnesses evaluate the kernel-reducible insertion-sort instance instead) -/
+theorem sortIdx_with {as : List Int → List Nat} (has : IsArgsort as) {t : MeshTol} {A B M : Nat}
+    {C : List (List Int)} {m : Mesh} (h : pointHypWith t A B M C m = true) :
+    sortPointsIdx as t m = sortPointsIdx argsortStable t m := by
+  obtain ⟨hy, hd⟩ := pointHypWith_sound h
+  unfold sortPointsIdx
+  rw [sortPointsItems_tie_independent isArgsort_stable has hy hd]
+
 end Fc.Resid2
